@@ -46,7 +46,28 @@ func (e *Engine) instantiateLemma(env *SpecEnv, u *Clause) []*Term {
 	for _, en := range lm.Ensures {
 		enss = append(enss, lenv.boolTerm(en.Expr))
 	}
-	return []*Term{mkImplies(mkAnd(reqs...), mkAnd(enss...))}
+	// when the hypotheses of the lemma are already known, its conclusions are assumed one by one
+	// (which lets equalities act as rewrite rules); otherwise the instance is an implication.
+	req := substitute(mkAnd(reqs...), env.st.subst)
+	known := req.IsConst() && req.Val.Sign() != 0
+	if !known {
+		known = true
+		var cs []*Term
+		if req.Op == "and" {
+			cs = req.Args
+		} else {
+			cs = []*Term{req}
+		}
+		for _, c := range cs {
+			if !env.st.hypKeys[c.Key()] {
+				known = false
+			}
+		}
+	}
+	if known {
+		return enss
+	}
+	return []*Term{mkImplies(req, mkAnd(enss...))}
 }
 
 // lemmaObligations generates the proof obligations of every lemma with an SMT proof method.
